@@ -187,6 +187,13 @@ func (e *Engine) mergeTwo(a, b *State) *State {
 			n.heap[id] = cell{m, e.nstamp}
 		}
 	}
+	if a.lastNow != b.lastNow {
+		if a.lastNow != nil && b.lastNow != nil {
+			n.lastNow = e.b.Ite(dA, a.lastNow, b.lastNow)
+		} else if b.lastNow != nil {
+			n.lastNow = b.lastNow
+		}
+	}
 	// input-name counters: take the max
 	for k2, v := range b.names {
 		if n.names == nil {
